@@ -470,7 +470,7 @@ func (te *taskEnv) exec(op *Op, rec *OpRec) {
 			// goroutines of this root: the ones its construction started and
 			// whatever those started. (A goroutine that belongs to another root -
 			// the shared NoopScope that a task closes, say - is not this root's.)
-			rec.Extra = len(env.Sim.LiveLibDescendants(env.rootLib))
+			rec.Extra = env.watchLeft(env.Sim.LiveLibDescendants(env.rootLib))
 		}
 	case "sleep":
 		simrt.Sleep(time.Duration(op.I))
